@@ -101,8 +101,11 @@ func closePipe(n *Named, name string) {
 
 	n.mutex.Lock()
 
-	n.pipes[name].Pipe.Close()
-	delete(n.pipes, name)
+	// the pipe may have been closed or deleted again during the grace period
+	if p := n.pipes[name].Pipe; p != nil {
+		p.Close()
+		delete(n.pipes, name)
+	}
 
 	n.mutex.Unlock()
 }
